@@ -147,5 +147,6 @@ func Bodies(seed int64) []Body {
 		demuxDataBody("demux-data:descriptor-zoo", zoo),
 		demuxPacketBody("demux-packets:af-variety", afv),
 		demuxDataBody("demux-data:af-variety", afv),
+		demuxDataBody("demux-data:split-section-headers", checks.SplitHeaderStream(seed)),
 	}
 }
